@@ -10,7 +10,9 @@
 (***************************************************************************)
 EXTENDS HashMap, Json, IOUtils, TLC
 
-Cases == ndJsonDeserialize(IOEnv.VERIF_TRACE)
+(* parse the trace file once (TLC would otherwise re-evaluate the operator) *)
+ASSUME TLCSet(11, ndJsonDeserialize(IOEnv.VERIF_TRACE))
+Cases == TLCGet(11)
 
 VARIABLES ci, pos, verdict
 tvars == <<content, out, ci, pos, verdict>>
